@@ -398,6 +398,35 @@ impl WorldB {
                     self.deliver_to_server(ix, src, true, obs);
                 }
             }
+            K_REFRAME => {
+                // a sealed datagram still in flight is re-framed: the prefix announces a longer packet number and that many
+                // zero bytes are inserted behind the number's bytes — same type, same number, same ciphertext and tag, but not
+                // the bytes the peer sent. Handed over ahead of the original, which stays in flight.
+                let slot = op.a as usize % ns;
+                let dir = (op.b % 2) as usize;
+                let pool = if dir == 0 { &self.slots[slot].c2s } else { &self.slots[slot].s2c };
+                let cands: Vec<usize> = pool.iter().copied().filter(|&ix| self.ledger[ix].ptype != T_REQUEST && !matches!(self.ledger[ix].producer, Producer::Adversary) && !self.ledger[ix].bytes.is_empty()).collect();
+                if cands.is_empty() {
+                    return;
+                }
+                let from = cands[op.c as usize % cands.len()];
+                let mut b = self.ledger[from].bytes.clone();
+                let n_old = (b[0] >> 4) as usize;
+                if n_old >= 8 || b.len() < 1 + n_old {
+                    return;
+                }
+                let n_add = 1 + (op.d as usize % (8 - n_old));
+                b[0] = (b[0] & 0x0F) | (((n_old + n_add) as u8) << 4);
+                for _ in 0..n_add {
+                    b.insert(1 + n_old, 0);
+                }
+                obs.count("fault.reframe");
+                obs.abs.u64(0x6B0 + self.ledger[from].ptype as u64);
+                let (src, dst, tid) = (self.ledger[from].src, self.ledger[from].dst, self.ledger[from].tid);
+                let ix = self.adv_record(b, src, dst, tid, true, obs);
+                let target = if self.is_server_addr(dst) { 0 } else { self.slot_of_addr(dst).map(|j| j as u64 + 1).unwrap_or(0) };
+                self.adv_deliver(ix, target, src, obs);
+            }
             K_STALEHS => {
                 // a handshake reply the server once sealed for this client's token (a challenge, a denial from a moment when
                 // the server was full) reaches the client late, when it may long be connected
